@@ -85,7 +85,7 @@ def gen_strings(ctx, rnd, cases):
     for blk in range(0, 0x1100):
         if 0xD8 <= blk <= 0xDF:
             continue
-        if not q or blk < 0x30 or blk % 16 == 0 or blk in (0xD7, 0xE0, 0xFF, 0x100, 0x1F6, 0xE00, 0x10FF, 0xFE, 0x20):
+        if not q or blk < 0x30 or blk % 32 == 0 or blk in (0xD7, 0xE0, 0xFF, 0x100, 0x1F6, 0xE00, 0x10FF, 0xFE, 0x20):
             blocks.append(blk)
     for blk in blocks:
         cases.append({"op": "cps", "lo": blk * 256, "n": 256})
@@ -104,7 +104,7 @@ def gen_strings(ctx, rnd, cases):
         for b in SPECIALS:
             cases.append({"op": "val", "kind": "str", "v": enc_str(a + b)})
             cases.append({"op": "val", "kind": "bytes", "v": enc_bytes((a + b).encode())})
-    for _ in range(1500 if q else 20000):
+    for _ in range(800 if q else 20000):
         s = "".join(rnd.choice(SPECIALS) for _ in range(3))
         cases.append({"op": "val", "kind": "str", "v": enc_str(s)})
     for _ in range(1000 if q else 10000):
@@ -137,27 +137,39 @@ def gen_ints(ctx, rnd, cases):
 
 
 def gen_floats(ctx, rnd, cases):
-    pats = set()
+    """bit patterns over the whole binary64 range.  The exact decimal oracle (Float64.IsNearestDec, big
+    rationals in TLC) costs 0.2-0.7 s per value at extreme exponents and a few ms in the middle, so it is
+    applied ("dec") to the named values, to two patterns of every exponent (quick: every 32nd) and to all
+    patterns of moderate exponents; the remaining patterns are judged by the round trip only."""
+    q = ctx.quick
+    dec, nodec = set(), set()
     named = [0.0, 1.0, 0.1, 1 / 3, 2 / 3, 1e21, 1e22, 1e23, 5e-324, 2.2250738585072014e-308, 2.225073858507201e-308, 1.7976931348623157e308,
              float(1 << 53), 1e15, 1e16, 1e17, 123456789012345680.0, 9007199254740993.0, 0.3, 100.0, 1e-5, 1e-4, 1e-7, 123456.789e3,
              4.35, 0.000001, 1e100, 1.5e-10, 299792458.0, 6.02214076e23, 8.41e21, 2.0 ** -1074, 2.0 ** 1023, 4.9406564584124654e-324,
              9.5367431640625e-07, 5e-1, 7.0385307e-26, 1.2345678901234567e-300, 1e-323, 2e-323, 3.5e-323]
     for f in named:
         b = struct.unpack(">Q", struct.pack(">d", f))[0]
-        pats.add(b)
-        pats.add(b | (1 << 63))
-    per_exp = 2 if ctx.quick else 24
+        dec.add(b)
+        dec.add(b | (1 << 63))
     for e in range(0, 2047):
-        ms = [0, 1, (1 << 52) - 1, 1 << 51][: 2 if ctx.quick else 4] + [rnd.getrandbits(52) for _ in range(per_exp)]
-        for m in ms:
-            pats.add((e << 52) | m | (rnd.getrandbits(1) << 63))
-    for _ in range(1000 if ctx.quick else 8000):
+        sign = rnd.getrandbits(1) << 63
+        if not q or e % 32 == 0 or e in (1, 2046, 1023, 1075, 1076):
+            dec.add((e << 52) | rnd.choice([0, 1, (1 << 52) - 1]) | sign)
+            dec.add((e << 52) | rnd.getrandbits(52) | (sign ^ (1 << 63)))
+        for m in [0, 1, (1 << 52) - 1, 1 << 51][: 2 if q else 4] + [rnd.getrandbits(52) for _ in range(2 if q else 40)]:
+            nodec.add((e << 52) | m | (rnd.getrandbits(1) << 63))
+    for _ in range(3000 if q else 40000):           # moderate exponents: 2^-70 .. 2^70
+        dec.add(((1023 + rnd.randint(-70, 70)) << 52) | rnd.getrandbits(52) | (rnd.getrandbits(1) << 63))
+    for _ in range(1000 if q else 8000):
         # short decimals: values whose shortest text has few digits
+        f = float("%de%d" % (rnd.randrange(1, 10 ** rnd.randint(1, 6)), rnd.randint(-25, 25)))
+        dec.add(struct.unpack(">Q", struct.pack(">d", f))[0])
+    for _ in range(50 if q else 500):
         f = float("%de%d" % (rnd.randrange(1, 10 ** rnd.randint(1, 6)), rnd.randint(-320, 305)))
         if f == f and f not in (float("inf"), float("-inf")):
-            pats.add(struct.unpack(">Q", struct.pack(">d", f))[0])
-    for b in sorted(pats):
-        cases.append({"op": "val", "kind": "float", "v": enc_bits(b)})
+            dec.add(struct.unpack(">Q", struct.pack(">d", f))[0])
+    for b in sorted(dec | nodec):
+        cases.append({"op": "val", "kind": "float", "v": enc_bits(b), "dec": b in dec})
 
 
 class TreeGen:
@@ -442,7 +454,7 @@ def record(c, r):
     if kind in ("str", "bytes"):
         return {"id": c["id"], "op": kind, "v": c["v"]["v"], "repr": r["repr"], "back": back, "str": r["str"]}
     if kind in ("int", "float", "tree"):
-        return {"id": c["id"], "op": kind, "v": c["v"], "repr": r["repr"], "back": back, "str": r["str"]}
+        return {"id": c["id"], "op": kind, "v": c["v"], "repr": r["repr"], "back": back, "str": r["str"], "dec": c.get("dec", False)}
     if kind == "graph":
         rec = {"id": c["id"], "op": "graph", "nodes": c["nodes"], "root": c["root"], "cyclic": c["cyclic"], "predict": c["predict"],
                "v": c.get("tree", {"t": "none"}), "back": back}
@@ -574,6 +586,7 @@ def run(ctx):
     ctx.cov["distinct_nontrivial"] = elements            # every value is distinct by construction (sets / dedup by encoding)
     ctx.cov["values_per_kind"] = kinds
     ctx.cov["code_points_individually"] = kinds.get("cps", 0)
+    ctx.cov["floats_with_decimal_oracle"] = sum(1 for c in cases if c.get("dec"))
     ctx.cov["cyclic_graphs"] = sum(1 for c in cases if c.get("kind") == "graph" and c["cyclic"])
     ctx.cov["shared_graphs"] = sum(1 for c in cases if c.get("kind") == "graph" and not c["cyclic"])
     ctx.cov["graph_text_differs_from_prediction"] = len(notes)
@@ -590,7 +603,7 @@ def run(ctx):
         "strings that are not valid UTF-8, non-finite floats, sets, structs and functions are outside the property's quantifier",
         "the exact text for cyclic values ([...] / {...}) is not specified by doc/spec.md: differences from ReprSpec.GraphRepr are noted, only non-termination is a violation",
     ]
-    return ctx.finish(rule="every code point individually (quick: all below U+3000 and every 16th block of 256; thorough: all 1,112,064 scalar values), "
+    return ctx.finish(rule="every code point individually (quick: all below U+3000 and every 32nd block of 256; thorough: all 1,112,064 scalar values), "
                            "surrogates as raw bytes, all single bytes and two-byte strings (quick: 33 leading bytes), pairs/triples of %d special characters, "
                            "seeded random strings/bytes, ints +-(2^k+d), +-(10^k+d) and random to 2^200, float bit patterns over every exponent, "
                            "random containers nested to depth 6, random object graphs with sharing and cycles; distinct = distinct values" % len(SPECIALS),
